@@ -110,6 +110,10 @@ def FS.file? (fs : FS) (ino : Nat) : Option File := fs.files[ino]?
 
 def FS.setFile (fs : FS) (ino : Nat) (f : File) : FS := { fs with files := fs.files.set ino f }
 
+/-- link count of a regular file: the number of names that denote the inode (an open file keeps its inode —
+    contents, size — after its last name is removed or re-bound; only the count drops) -/
+def FS.nlink (fs : FS) (ino : Nat) : Nat := (fs.nodes.filter fun e => e.2 == Node.file ino).length
+
 def NAME_MAX : Nat := 255
 
 /-- split at `/` -/
@@ -357,7 +361,7 @@ def State.fstat (s : State) (fd : Int) : R Stat :=
     | .file ino =>
       match s.fs.file? ino with
       | none => .err .EIO
-      | some f => .ok ⟨false, f.size, 1, false⟩
+      | some f => .ok ⟨false, f.size, s.fs.nlink ino, false⟩
 
 def State.stat (s : State) (path : Bytes) : R Stat :=
   match parsePath path with
@@ -374,7 +378,7 @@ def State.stat (s : State) (path : Bytes) : R Stat :=
       | some (.file ino) =>
         match s.fs.file? ino with
         | none => .err .EIO
-        | some f => .ok ⟨false, f.size, 1, false⟩
+        | some f => .ok ⟨false, f.size, s.fs.nlink ino, false⟩
 
 def State.fcntlGetfl (s : State) (fd : Int) : R (Acc × List OFlag) :=
   match s.ofd? fd with
@@ -395,6 +399,45 @@ def State.closedir (s : State) (h : Nat) : State × R Unit :=
   match (s.dirs[h]?).join with
   | none => (s, .err .EBADF)
   | some _ => ({ s with dirs := s.dirs.set h none }, .ok ())
+
+/-- `unlink(path)` of a regular file or FIFO: the NAME goes away, open descriptions of the inode are unaffected -/
+def State.unlink (s : State) (path : Bytes) : State × R Unit :=
+  match parsePath path with
+  | none => (s, .unmodelled)
+  | some cs =>
+    match s.fs.walkPrefix [] cs with
+    | some e => (s, .err e)
+    | none =>
+      if (cs.getLastD []).length > NAME_MAX then (s, .err .ENAMETOOLONG) else
+      match s.fs.node? cs with
+      | none => (s, .err .ENOENT)
+      | some .dir => (s, .err .EISDIR)             -- (LINUX) POSIX says EPERM
+      | some _ => ({ s with fs := { s.fs with nodes := s.fs.nodes.filter fun e => !(e.1 == cs) } }, .ok ())
+
+/-- `rename(old, new)` of a regular file or FIFO: `new` is bound to the inode of `old` (a file that `new` named
+    before loses that name), `old` disappears; directories are not modelled -/
+def State.rename (s : State) (old new : Bytes) : State × R Unit :=
+  match parsePath old, parsePath new with
+  | some co, some cn =>
+    match s.fs.walkPrefix [] co with
+    | some e => (s, .err e)
+    | none =>
+      if (co.getLastD []).length > NAME_MAX then (s, .err .ENAMETOOLONG) else
+      match s.fs.node? co with
+      | none => (s, .err .ENOENT)
+      | some .dir => (s, .unmodelled)
+      | some nd =>
+        match s.fs.walkPrefix [] cn with
+        | some e => (s, .err e)
+        | none =>
+          if (cn.getLastD []).length > NAME_MAX then (s, .err .ENAMETOOLONG) else
+          match s.fs.node? cn with
+          | some .dir => (s, .err .EISDIR)
+          | _ =>
+            if co == cn then (s, .ok ()) else
+            let rest := s.fs.nodes.filter fun e => !(e.1 == co) && !(e.1 == cn)
+            ({ s with fs := { s.fs with nodes := rest ++ [(cn, nd)] } }, .ok ())
+  | _, _ => (s, .unmodelled)
 
 def State.fsync (s : State) (fd : Int) : R Unit :=
   match s.ofd? fd with
